@@ -7,6 +7,7 @@ import (
 	"log"
 	"reflect"
 	"sort"
+	"strings"
 	"sync"
 	"sync/atomic"
 	"time"
@@ -32,8 +33,13 @@ func Lookup(prop, name string) *explore.Scenario {
 	if f == nil {
 		return nil
 	}
+	delay := strings.HasSuffix(name, "~d")
+	name = strings.TrimSuffix(name, "~d")
 	for _, s := range f() {
 		if s.Name == name {
+			if delay {
+				return explore.WithDelay(s)
+			}
 			return s
 		}
 	}
